@@ -769,6 +769,52 @@ theorem specStep_future (F : TFlags) (P : Params) (hE : FloatOK F P) (hC : CronF
             · exact key _ _ r h
             · exact key _ _ r h
 
+/-! ## "startup" / "shutdown" entries -/
+
+theorem strip_fst (m : TArg) (args : List TArg) : (strip m args).1 = args.contains m := by
+  induction args with
+  | nil => rfl
+  | cons a rest ih =>
+    simp only [strip, List.contains_cons]
+    by_cases h : a = m
+    · simp [h]
+    · have : (m == a) = false := by simp; exact fun h' => h h'.symm
+      simp [h, ih, this]
+
+theorem strip_mem_other (m m' : TArg) (hne : m ≠ m') (args : List TArg) : m' ∈ (strip m args).2 ↔ m' ∈ args := by
+  induction args with
+  | nil => simp [strip]
+  | cons a rest ih =>
+    simp only [strip]
+    by_cases h : a = m
+    · simp only [h, if_true, ih, List.mem_cons]
+      constructor
+      · exact Or.inr
+      · rintro (h' | h')
+        · exact absurd h'.symm hne
+        · exact h'
+    · simp only [h, if_false, List.mem_cons, ih]
+
+theorem strip_contains_other (m m' : TArg) (hne : m ≠ m') (args : List TArg) :
+    (strip m args).2.contains m' = args.contains m' := by
+  rw [Bool.eq_iff_iff]
+  simp [strip_mem_other m m' hne args]
+
+theorem specsOf_strip (m : TArg) (hm : ∀ s, m ≠ .spec s) (args : List TArg) : specsOf (strip m args).2 = specsOf args := by
+  induction args with
+  | nil => rfl
+  | cons a rest ih =>
+    simp only [strip]
+    by_cases h : a = m
+    · subst h
+      simp only [if_true, ih]
+      cases a with
+      | spec s => exact absurd rfl (hm s)
+      | startup => rfl
+      | shutdown => rfl
+    · simp only [h, if_false]
+      cases a <;> simp [specsOf, ih]
+
 /-! ## the wait-and-fire loop -/
 
 theorem timeLoop_succs (F : TFlags) (P : Params) (specs : List TSpec) (st : Int) (D : Int → Prop) (lat : Nat → Int) (lo : Int)
